@@ -431,3 +431,34 @@ Proof.
   - rewrite Nat.add_0_r. cbn [nth]. destruct (_ =? _)%Z; reflexivity.
   - cbn [nth]. rewrite IH by (cbn in *; lia). replace (S i + k) with (i + S k) by lia. reflexivity.
 Qed.
+
+(* ------------------------------------------------------------ LINCOM / POLYNOM / RECIP / LINTERP inverses *)
+From Coq Require Import QArith Field.
+Local Open Scope Q_scope.
+
+Theorem lincom_out_inverts m b y : ~ m == 0 -> lincom_read m b (lincom_out m b y) == y.
+Proof. intros Hm. unfold lincom_read, lincom_out. field. exact Hm. Qed.
+
+Theorem lincom_out_unique m b x : ~ m == 0 -> lincom_out m b (lincom_read m b x) == x.
+Proof. intros Hm. unfold lincom_read, lincom_out. field. exact Hm. Qed.
+
+Theorem recip_out_inverts a y : ~ a == 0 -> ~ y == 0 -> recip_read a (recip_out a y) == y.
+Proof. intros Ha Hy. unfold recip_read, recip_out. field. split; assumption. Qed.
+
+(* the reversed table holds exactly the swapped knots, in the same order *)
+Theorem reverse_table_knots lut x y : In (x, y) lut <-> In (y, x) (reverse_table lut).
+Proof.
+  unfold reverse_table. rewrite in_map_iff. split.
+  - intros H. exists (x, y). auto.
+  - intros [[a b] [E H]]. cbn in E. inversion E; subst. exact H.
+Qed.
+
+Theorem reverse_table_involutive lut : reverse_table (reverse_table lut) = lut.
+Proof. unfold reverse_table. rewrite map_map. rewrite <- (map_id lut) at 2. apply map_ext. intros [a b]; reflexivity. Qed.
+
+(* on a strictly monotonic segment interpolating in the reversed segment undoes the interpolation *)
+Theorem seg_interp_inverse x0 y0 x1 y1 x :
+  ~ x1 - x0 == 0 -> ~ y1 - y0 == 0 ->
+  seg_interp y0 x0 y1 x1 (seg_interp x0 y0 x1 y1 x) == x.
+Proof. intros Hx Hy. unfold seg_interp. field. split; assumption. Qed.
+Local Close Scope Q_scope.
